@@ -8,8 +8,11 @@
     (iii) Trees of such values ([filt], [sub], [coll]) and a dispatch-level workload ([op]); [run_case] returns
          the call log and the results, which driver/props/c09.py compares with the real crates.
 
-    Scope of the model: stacks without per-layer filters whose root is not `Registry` (the three private flags
-    of `Layered` are all false there); `downcast_raw` is modelled only through [is_none]. *)
+    Scope of the model: stacks without per-layer filters (`Filtered` is C07's).  The root collector is a recording leaf or a
+    `Registry` ([b_registry]); `Layered`'s three private flags are parameters computed from the built stack ([flags_of_root]):
+    in an unfiltered stack `has_subscriber_filter` is false everywhere, and `inner_is_registry` (hence
+    `inner_has_subscriber_filter`) is true exactly for the `Layered` whose `inner` is the `Registry` value itself.
+    `downcast_raw` is modelled only through [is_none]. *)
 From TV Require Export Forwarding.Syntax.
 From TVGen Require Gen_forwarding.
 Local Open Scope N_scope.
@@ -172,19 +175,34 @@ Definition vec_sem (tb : tables) (xs : list calls) (self : calls) : calls := fun
   | _ => poison
   end.
 
-(** `Layered` (both impls), with `has_subscriber_filter = inner_has_subscriber_filter = inner_is_registry = false`. *)
+(** `Layered` (both impls).  The three private flags, as `Layered::new` computes them. *)
+Record lflags := mkFl { hsf : bool; ihsf : bool; iir : bool }.   (* has_subscriber_filter, inner_has_subscriber_filter, inner_is_registry *)
+Definition noflags : lflags := mkFl false false false.
+
 Definition opt_max (x y : hint) : hint :=    (* cmp::max on Option<LevelFilter>: None < Some _ *)
   match x, y with
   | None, _ => y
   | _, None => x
   | Some p, Some q => Some (N.max p q)
   end.
-Definition pick_level_hint (s_none inner_none : bool) (oh ih : hint) : hint :=
-  if s_none then match ih with None => None | Some i => opt_max oh (Some i) end
+Definition hint_is_none (h : hint) : bool := match h with None => true | Some _ => false end.
+(** `Layered::pick_level_hint`, statement by statement (the translator compares the Rust body with its template). *)
+Definition pick_level_hint (fl : lflags) (s_none inner_none : bool) (oh ih : hint) : hint :=
+  if iir fl then oh
+  else if hsf fl && ihsf fl then match oh, ih with Some p, Some q => Some (N.max p q) | _, _ => None end
+  else if hsf fl && hint_is_none ih then None
+  else if ihsf fl && hint_is_none oh then None
+  else if s_none then match ih with None => None | Some i => opt_max oh (Some i) end
   else if inner_none && match ih with Some 0 => true | _ => false end then oh
   else opt_max oh ih.
+(** `Layered::pick_interest` once the inner side has been asked ([o] is not `never` unless `has_subscriber_filter`). *)
+Definition pick_interest_res (fl : lflags) (o i : interest) : interest :=
+  if hsf fl then i
+  else if is_sometimes o then ISometimes
+  else if is_never i && ihsf fl then ISometimes
+  else i.
 
-Definition layered_sem (tb : tables) (w : wrapper) (s inner : obj) (self : calls) : calls := fun m a =>
+Definition layered_sem (tb : tables) (w : wrapper) (fl : lflags) (s inner : obj) (self : calls) : calls := fun m a =>
   match row tb w m with
   | Seq2 o mi mo =>
       match decode_meth mi, decode_meth mo with
@@ -207,12 +225,12 @@ Definition layered_sem (tb : tables) (w : wrapper) (s inner : obj) (self : calls
       match decode_meth mo, decode_meth mi with
       | Some mo', Some mi' =>
           match call s mo' a with
-          | (lo, RInt INever) => (lo, RInt INever)
           | (lo, RInt o) =>
-              match call inner mi' a with
-              | (li, RInt i) => (lo ++ li, RInt (if is_sometimes o then ISometimes else i))
-              | (li, _) => (lo ++ li, RPoison)
-              end
+              if negb (hsf fl) && is_never o then (lo, RInt INever)
+              else match call inner mi' a with
+                   | (li, RInt i) => (lo ++ li, RInt (pick_interest_res fl o i))
+                   | (li, _) => (lo ++ li, RPoison)
+                   end
           | (lo, _) => (lo, RPoison)
           end
       | _, _ => poison
@@ -220,7 +238,7 @@ Definition layered_sem (tb : tables) (w : wrapper) (s inner : obj) (self : calls
   | PickHint probe =>
       if String.eqb probe "collector_is_none" || String.eqb probe "subscriber_is_none" then
         match call s max_level_hint a, call inner max_level_hint a with
-        | (lo, RHint oh), (li, RHint ih) => (lo ++ li, RHint (pick_level_hint (is_none s) (is_none inner) oh ih))
+        | (lo, RHint oh), (li, RHint ih) => (lo ++ li, RHint (pick_level_hint fl (is_none s) (is_none inner) oh ih))
         | (lo, _), (li, _) => (lo ++ li, RPoison)
         end
       else poison
@@ -290,8 +308,18 @@ Record beh := mkBeh {
   b_event_enabled : N -> bool;
   b_hint : hint;
   b_close : N -> bool;             (* collector only: try_close(id) *)
-  b_clone : N -> N                 (* collector only: clone_span(id) *)
+  b_clone : N -> N;                (* collector only: clone_span(id) *)
+  b_registry : bool                (* collector only: this root is the `Registry` itself (not a recording collector) *)
 }.
+
+(** What a root collector answers.  A `Registry` without per-layer filters answers `always` / `true` / no hint, hands the id
+    back on `clone_span`, and records nothing in the harness's log; whether `try_close` closes is its reference counting
+    (C05's subject): [b_close] is then an oracle for it. *)
+Definition r_interest (b : beh) (cs : N) : interest := if b_registry b then IAlways else b_interest b cs.
+Definition r_enabled (b : beh) (cs : N) : bool := if b_registry b then true else b_enabled b cs.
+Definition r_event_enabled (b : beh) (cs : N) : bool := if b_registry b then true else b_event_enabled b cs.
+Definition r_hint (b : beh) : hint := if b_registry b then None else b_hint b.
+Definition r_clone (b : beh) (id : N) : N := if b_registry b then id else b_clone b id.
 
 Definition leaf_sub (i : N) (b : beh) : calls := fun m a =>
   ([(i, m, a)],
@@ -312,14 +340,14 @@ Definition leaf_filt (i : N) (b : beh) : calls := fun m a =>
    | _ => RUnit
    end).
 Definition leaf_coll (i : N) (b : beh) : calls := fun m a =>
-  ([(i, m, a)],
+  (if b_registry b then [] else [(i, m, a)],
    match m with
-   | register_callsite => RInt (b_interest b (a_cs a))
-   | enabled => RBool (b_enabled b (a_cs a))
-   | event_enabled => RBool (b_event_enabled b (a_cs a))
-   | max_level_hint => RHint (b_hint b)
+   | register_callsite => RInt (r_interest b (a_cs a))
+   | enabled => RBool (r_enabled b (a_cs a))
+   | event_enabled => RBool (r_event_enabled b (a_cs a))
+   | max_level_hint => RHint (r_hint b)
    | new_span => RId (a_id a)
-   | clone_span => RId (b_clone b (a_id a))
+   | clone_span => RId (r_clone b (a_id a))
    | try_close => RBool (b_close b (a_id a))
    | _ => RUnit
    end).
@@ -374,10 +402,16 @@ Fixpoint sub_obj (tb : tables) (s : sub) : obj :=
   | SVec xs => let os := map (sub_obj tb) xs in
                mkObj (tie FUEL (vec_sem tb (map call os))) (none_vec tb (map is_none os))
   | SPair o i => let oo := sub_obj tb o in let oi := sub_obj tb i in
-                 mkObj (tie FUEL (layered_sem tb WLayeredS oo oi)) (none_layered tb WLayeredS (is_none oo) (is_none oi))
+                 mkObj (tie FUEL (layered_sem tb WLayeredS noflags oo oi)) (none_layered tb WLayeredS (is_none oo) (is_none oi))
   | SIdentity => mkObj (tie FUEL (fwd_sem tb WIdentityS (fun _ _ => poison))) (none_through tb WIdentityS false)
   | SProbe f => mkObj (probe_sem (call (filt_obj tb f))) false
   end.
+
+(** `Layered::new(subscriber, inner, ..)` for `c'.with(s)`: `inner_is_registry` compares the TYPE of `inner` with `Registry`
+    (a `Box<Registry>` or a `Layered<_, Registry>` is not one); `inner_has_subscriber_filter = collector_has_psf(inner) ||
+    inner_is_registry`, and no collector of an unfiltered stack answers the per-layer-filter marker. *)
+Definition flags_of_root (c' : coll) : lflags :=
+  match c' with CLeaf _ b => mkFl false (b_registry b) (b_registry b) | _ => noflags end.
 
 Fixpoint coll_obj (tb : tables) (c : coll) : obj :=
   match c with
@@ -385,7 +419,7 @@ Fixpoint coll_obj (tb : tables) (c : coll) : obj :=
   | CWrap w c' => let o := coll_obj tb c' in
                   mkObj (tie FUEL (fwd_sem tb (cwrap_w w) (call o))) (none_through tb (cwrap_w w) (is_none o))
   | CLayered s c' => let os := sub_obj tb s in let oc := coll_obj tb c' in
-                     mkObj (tie FUEL (layered_sem tb WLayeredC os oc)) (none_layered tb WLayeredC (is_none os) (is_none oc))
+                     mkObj (tie FUEL (layered_sem tb WLayeredC (flags_of_root c') os oc)) (none_layered tb WLayeredC (is_none os) (is_none oc))
   end.
 
 (** * Workloads (what the harness does with `Dispatch::new(stack)`) *)
@@ -482,4 +516,7 @@ Definition nth_or {A} (l : list A) (d : A) (n : N) : A := nth (N.to_nat n) l d.
 Definition interest_of (n : N) : interest := match n with 0 => INever | 1 => ISometimes | _ => IAlways end.
 Definition beh_of (ints : list N) (en ev : list bool) (h : hint) (close_mask : N) (change : bool) : beh :=
   mkBeh (fun cs => interest_of (nth_or ints 2 cs)) (fun cs => nth_or en true cs) (fun cs => nth_or ev true cs) h
-        (fun id => N.testbit close_mask (id mod 8)) (fun id => if change then id + 100 else id).
+        (fun id => N.testbit close_mask (id mod 8)) (fun id => if change then id + 100 else id) false.
+(** The `Registry` as a root; [closes] = the ops (by position in the workload) whose `try_close` it answers with `true`. *)
+Definition beh_registry (close_of : N -> bool) : beh :=
+  mkBeh (fun _ => IAlways) (fun _ => true) (fun _ => true) None close_of (fun id => id) true.
